@@ -111,6 +111,11 @@ func (m *fmMod) op(e *lib.Env, st Step) (string, lib.Outcome) {
 		return "FmOther", e.Deliver(&farmtypes.MsgUnstake{PoolId: poolID, Amount: sdk.NewCoin("lpt-1", n(0)), Sender: a0.String()})
 	case "harvest":
 		return "FmOther", e.Deliver(&farmtypes.MsgHarvest{PoolId: poolID, Sender: a0.String()})
+	case "adjust": // not modelled (FmOther): only the abort clause applies
+		return "FmOther", e.Deliver(&farmtypes.MsgAdjustPool{PoolId: poolID, AdditionalReward: sdk.NewCoins(sdk.NewCoin("btc", n(0))),
+			RewardPerBlock: sdk.NewCoins(sdk.NewCoin("btc", n(1))), Creator: a0.String()})
+	case "destroy":
+		return "FmOther", e.Deliver(&farmtypes.MsgDestroyPool{PoolId: poolID, Creator: a0.String()})
 	case "blocks":
 		var out lib.Outcome
 		for i := int64(0); i < n(0).Int64(); i++ {
@@ -182,7 +187,11 @@ func genFM(r *lib.Rand, h *History, i int) {
 	n := 3 + r.Intn(5)
 	h.Steps = append(h.Steps, Step{"create_pool", []string{amt(1, 2), amt(100000, 1000000), amt(1, 1000)}})
 	for i := 0; i < n; i++ {
-		switch r.Weighted(2, 3, 2, 2, 2) {
+		switch r.Weighted(2, 3, 2, 2, 2, 1, 1) {
+		case 5:
+			h.Steps = append(h.Steps, Step{"adjust", []string{amt(1, 100000), amt(1, 1000)}})
+		case 6:
+			h.Steps = append(h.Steps, Step{"destroy", nil})
 		case 0:
 			h.Steps = append(h.Steps, Step{"create_pool", []string{amt(1, 3), amt(100000, 1000000), amt(1, 1000)}})
 		case 1:
